@@ -4,6 +4,7 @@ import NutsModel.C03.KeyStore
 import NutsModel.C03.Jws
 import NutsModel.C03.Api
 import NutsModel.C03.FsList
+import NutsModel.C03.External
 import NutsModel.Facts.C03
 open Lean Nuts.Drv Nuts.C03 Nuts
 
@@ -210,6 +211,16 @@ def step (st : St) (j : Json) : St × List String :=
   | "apidecrypt" =>
     let m := if jStr j "msg" == "jwe" then JweMsg.jwe (jStr j "hkid") (jNat j "encFor") else JweMsg.garbage
     (st, ["apidecrypt " ++ showApi (apiDecryptJwe validStr apiCfg "$KEYDIR" s (parseApiReq j) m)])
+  | "extpath" =>
+    -- the external secret-store backend behind the wrapper: Exists (GET), Get (GET), Save (POST), Delete (DELETE); the
+    -- recording server answers 404 to everything
+    let kid := unhex (jStr j "kid")
+    match validB kid with
+    | some true =>
+      let t := hex (externalTarget (ascii (jStr j "base")) kid)
+      (st, [s!"extpath res=ok,not-found,not-found,not-found reqs=[GET:{t},GET:{t},POST:{t},DELETE:{t}]"])
+    | some false => (st, ["extpath res=invalid-key-id,invalid-key-id,invalid-key-id,invalid-key-id reqs=[]"])
+    | none => (st, ["extpath model-not-applicable"])
   | "listnames" =>
     -- fs.ListPrivateKeys over a tree of regular files (relative paths): the key names, sorted
     let names := fsListNames ((jStrs j "files").map unhex) entryType
